@@ -7,7 +7,8 @@
   points collected from decoded maps are representable up to the residual `CollectedTimesInLimit`; `encoded_file_accepted_decoded`).
   Props/C04DecodedPaths.lean (the shape half of `RepPath` derived
   from `convert_path_str`: for decoded sliders `PathShapeOk` is exactly `F17Free`; Props/C04DecodedPathsIeee.lean: its laws are
-  theorems of the IEEE instances). All in namespace `Rosu.C04`.
+  theorems of the IEEE instances); on the IEEE instances also Props/C04DecodedObjectsIeee.lean and
+  Props/C04DecodedObjectsIeee2.lean. All in namespace `Rosu.C04`.
 -/
 import RosuModel.Props.C04Slider
 import RosuModel.Props.C04Timing
@@ -24,3 +25,4 @@ import RosuModel.Props.C04DecodedTimingToy
 import RosuModel.Props.C04DecodedTimingIeee
 import RosuModel.Props.C04DecodedPaths
 import RosuModel.Props.C04DecodedPathsIeee
+import RosuModel.Props.C04DecodedObjectsIeee2
